@@ -1,7 +1,62 @@
 (* C40 — property theorems only. Statements are pinned by vp/check.py. *)
-From PV Require Import Lib.Base C40.Model C40.Proofs.
+From PV Require Import Lib.Base C40.Model C40.Spec C40.SortFacts C40.Proofs C40.Staging.
+From Coq Require Import Sorting.Sorted.
 Open Scope Z_scope.
 
+(* building never panics, outside the known class (a redeemer staged without ex-units) *)
+Theorem build_total : forall st,
+  (forall pr, In pr (s_rdmrs st) -> r_ex (snd pr) <> None) -> is_panic (build false st) = false.
+Proof. exact build_no_panic. Qed.
+
+(* the known class is real: todo!() is still reached *)
+Theorem build_total_refuted_todo :
+  pipeline false [OInput (1, 0); OSpendRdmr (1, 0) (mkRdmr (1, 0) true None)] = Panic P_TODO.
+Proof. exact todo_exunits_panics. Qed.
+
+(* every staged input/output/mint/fee/validity/... appears exactly, nothing else *)
+Theorem build_reflects_staging : forall st t, build false st = Ok t -> reflects st t.
+Proof. exact build_reflects. Qed.
+
+(* each redeemer carries its staged data and budget and its index addresses its target in the
+   strictly increasing input list / the sorted policy list of the built transaction *)
+Theorem redeemer_points_at_target : forall st t, build false st = Ok t ->
+  Forall2 (rdmr_points (t_inputs t) (map fst (t_mint t))) (s_rdmrs st) (t_rdmrs t) /\
+  StronglySorted input_lt (t_inputs t) /\ policies_sorted (t_mint t).
+Proof.
+  intros st t H. split; [apply build_points; exact H|].
+  destruct (build_reflects st t H) as [Hs [_ [_ [_ [_ [_ [[_ [Hp _]] _]]]]]]]. auto.
+Qed.
+
+(* over histories: the minted quantity of (policy, name) is the sum of the mint_asset calls since
+   the last remove_mint_asset, zero sums are absent, and the policies are strictly increasing *)
+Theorem mint_reflects_history : forall ops st t,
+  run_ops ops empty_staging = Ok st -> build false st = Ok t ->
+  (forall p n q, entry_in (t_mint t) p n q <-> mint_spec ops None p n = Some q /\ q <> 0) /\
+  StronglySorted Z.lt (map fst (t_mint t)).
+Proof.
+  intros ops st t Hr Hb.
+  assert (Hw : amap_wf (s_mint st)) by (apply (run_ops_mint ops empty_staging st 0 [] empty_wf Hr)).
+  destruct (build_reflects st t Hb) as [_ [_ [_ [_ [_ [_ [[He [Hp _]] _]]]]]]].
+  split.
+  - intros p n q. rewrite He. unfold entry_in. rewrite <- (amap_lookup_entry _ p n q Hw).
+    destruct (run_ops_mint ops empty_staging st p n empty_wf Hr) as [_ Hl]. rewrite Hl. reflexivity.
+  - apply build_ok in Hb as [outs [mint [net [cr [rdmrs [Hh [_ Ht]]]]]]].
+    apply build_head_ok in Hh as [_ [Hm _]]. subst t mint. cbn in *.
+    apply sorted_nodup_strict; [exact Hp|]. apply norm_amap_keys_nodup. apply Hw.
+Qed.
+
+(* the reported id is the hash of the body bytes found inside the built bytes, for any body
+   encoder, framing, hash function and item scan that recovers the first framed item *)
+Theorem tx_id_is_body_hash : forall (enc_body enc_rest : atx -> list Z) (frame : list Z -> list Z -> list Z)
+    (H : list Z -> Z) (scan : list Z -> option (list Z)),
+  (forall b r, scan (frame b r) = Some b) ->
+  forall t body, scan (built_bytes enc_body enc_rest frame t) = Some body -> built_id enc_body H t = H body.
+Proof.
+  intros enc_body enc_rest frame H scan Hscan t body Hb. unfold built_bytes in Hb. rewrite Hscan in Hb.
+  inversion Hb; subst. reflexivity.
+Qed.
+
+(* what the code did before the two `fix:` commits *)
 Theorem build_total_refuted_before_fix :
   pipeline true [OInput (1, 0); OMint 1 [97] 5; OMint 1 [97] (-5)] = Panic P_UNWRAP_ERR /\
   pipeline true [OInput (1, 0); OOutput (mkOutput (29, 0) 1000000 [(1, [([97], 0)])] None None)] = Panic P_UNWRAP_ERR.
@@ -12,6 +67,12 @@ Theorem redeemer_pointer_refuted_before_fix :
             t_rdmrs t = [(0, 2, (1, 0), 1, 2)] /\ t_inputs t = [(1, 0); (1, 0); (2, 0)].
 Proof. exact prefix_duplicate_input_pointer. Qed.
 
-Theorem build_total_refuted_todo :
-  pipeline false [OInput (1, 0); OSpendRdmr (1, 0) (mkRdmr (1, 0) true None)] = Panic P_TODO.
-Proof. exact todo_exunits_panics. Qed.
+(* non-vacuity: a history with a cancelling mint, a duplicated input, redeemers staged in reverse
+   order, builds; the duplicate is gone and the pointers follow the sorted order *)
+Example build_example :
+  exists t, pipeline false
+      [OInput (7, 1); OInput (3, 0); OInput (7, 1); OMint 9 [97] 5; OMint 9 [98] 2; OMint 9 [97] (-5); OMint 4 [] 1;
+       OSpendRdmr (7, 1) (mkRdmr (1, 0) true (Some (10, 20))); OMintRdmr 9 (mkRdmr (1, 1) true (Some (30, 40))); OFee 170000] = Ok t /\
+    t_inputs t = [(3, 0); (7, 1)] /\ t_mint t = [(4, [([], 1)]); (9, [([98], 2)])] /\
+    t_rdmrs t = [(0, 1, (1, 0), 10, 20); (1, 1, (1, 1), 30, 40)] /\ t_fee t = 170000.
+Proof. eexists. split; [vm_compute; reflexivity|]. repeat split; reflexivity. Qed.
